@@ -59,17 +59,26 @@ RECURSIVE Visits(_, _, _)
 Visits(rt, i, cps) == IF cps = <<>> THEN TRUE
                       ELSE IF i >= Len(rt) THEN FALSE
                       ELSE IF OnSeg(rt[i], rt[i + 1], cps[1]) THEN Visits(rt, i, Tail(cps)) ELSE Visits(rt, i + 1, cps)
+\* the route of connector i stops (at its end e) on one of the connector's own checkpoints instead of on the attachment
+EndsOnCheckpoint(r, i, e) == LET rt == r.conns[i].raw  pt == IF e = 1 THEN rt[1] ELSE rt[Len(rt)]
+                             IN  \E q \in DOMAIN r.conns[i].cps : r.conns[i].cps[q] = pt
 Tags(r) ==
     (IF \E i \in DOMAIN r.pins : HasShape(r, r.pins[i].s) /\ r.pins[i].prop /\ r.pins[i].p # PinPos(r.pins[i], RectOf(r, r.pins[i].s))
      THEN {"pin-position-does-not-follow-shape"} ELSE {})
     \cup (IF \E pe \in PinEnds(r) : ~HasShape(r, EndRec(r, pe).s) \/ PinsOf(r, EndRec(r, pe).s, EndRec(r, pe).c) = {} THEN {"end-attached-to-missing-pin"} ELSE {})
     \cup (IF (\A pe \in PinEnds(r) : HasShape(r, EndRec(r, pe).s) /\ Len(r.conns[pe[1]].raw) >= 2) /\ Servable(r) /\ ~Assign(r, PinEnds(r), {})
-          THEN {"pin-end-not-on-a-free-pin-of-its-class"} ELSE {})
+          THEN (IF \E pe \in PinEnds(r) : Len(r.conns[pe[1]].raw) >= 2 /\ EndsOnCheckpoint(r, pe[1], pe[2])
+                     /\ ~\E q \in PinsOf(r, EndRec(r, pe).s, EndRec(r, pe).c) : r.pins[q].p = RoutePt(r, pe)
+                THEN {"pin-end-not-on-a-free-pin-of-its-class:route-ends-on-a-checkpoint"} ELSE {"pin-end-not-on-a-free-pin-of-its-class"})
+          ELSE {})
     \cup (IF r.mode = 1 /\ r.buf > 0 /\ \E pe \in PinEnds(r) : LET rt == Dedup(r.conns[pe[1]].raw)
                                                                    e == EndRec(r, pe)
                                                                    a == IF pe[2] = 1 THEN rt[1] ELSE rt[Len(rt)]
                                                                    b == IF pe[2] = 1 THEN rt[2] ELSE rt[Len(rt) - 1]
                                                                IN  Len(rt) >= 2 /\ HasShape(r, e.s) /\
+                                                                   \* the end does sit on a pin of its class (not on the fallback when no free pin exists) and
+                                                                   \* none of the pins of that class at that point allows the direction taken
+                                                                   (\E i \in PinsOf(r, e.s, e.c) : r.pins[i].p = a) /\
                                                                    \A i \in PinsOf(r, e.s, e.c) : r.pins[i].p = a => ~HasFlag(r.pins[i].dirs, DirFlag(a, b))
           THEN {"leaves-pin-in-a-forbidden-direction"} ELSE {})
     \cup (IF \E i \in DOMAIN r.conns, e \in {1, 2} :
@@ -77,9 +86,26 @@ Tags(r) ==
                   rt == r.conns[i].raw
                   pt == IF e = 1 THEN rt[1] ELSE rt[Len(rt)]
               IN  en.t = 2 /\ Len(rt) >= 2 /\ \A k \in DOMAIN r.juncs : r.juncs[k].id = en.j => (pt # r.juncs[k].p /\ pt # r.juncs[k].rp)
-          THEN {"junction-end-not-at-junction"} ELSE {})
+          THEN (IF \A i \in DOMAIN r.conns, e \in {1, 2} :
+                     LET en == IF e = 1 THEN r.conns[i].src ELSE r.conns[i].dst
+                         rt == r.conns[i].raw
+                         pt == IF e = 1 THEN rt[1] ELSE rt[Len(rt)]
+                     IN  (en.t = 2 /\ Len(rt) >= 2 /\ \A k \in DOMAIN r.juncs : r.juncs[k].id = en.j => (pt # r.juncs[k].p /\ pt # r.juncs[k].rp))
+                         => EndsOnCheckpoint(r, i, e)
+                THEN {"junction-end-not-at-junction:route-ends-on-a-checkpoint"} ELSE {"junction-end-not-at-junction"})
+          ELSE {})
     \* (a connector that found no free pin falls back to a straight centre line; that case is the pin clause's, not this one's)
-    \cup (IF \E i \in DOMAIN r.conns : r.conns[i].cps # <<>> /\ Len(r.conns[i].raw) >= 2 /\ ~Visits(r.conns[i].raw, 1, r.conns[i].cps)
+    \* ("If a checkpoint is unreachable because it lies inside an obstacle, then that checkpoint will be skipped": checkpoints in or on
+    \*  a shape grown by the buffer distance are left out of the demand)
+    \cup (IF \E i \in DOMAIN r.conns : r.conns[i].cps # <<>> /\ Len(r.conns[i].raw) >= 2
+                                         /\ LET OutS(p, q) == LET sh == r.shapes[q] IN
+                                                               (p[1] < sh[2] - r.buf * LS) \/ (p[1] > sh[4] + r.buf * LS) \/ (p[2] < sh[3] - r.buf * LS) \/ (p[2] > sh[5] + r.buf * LS)
+                                                \* a junction is an obstacle too: its rectangle is its position +-1, grown by the buffer
+                                                OutJ(p, q) == LET jp == r.juncs[q].p  h == (1 + r.buf) * LS IN
+                                                               (p[1] < jp[1] - h) \/ (p[1] > jp[1] + h) \/ (p[2] < jp[2] - h) \/ (p[2] > jp[2] + h)
+                                                Free(p) == (\A q \in DOMAIN r.shapes : OutS(p, q)) /\ (\A q \in DOMAIN r.juncs : OutJ(p, q))
+                                                demand == SelectSeq(r.conns[i].cps, Free)
+                                            IN  ~Visits(r.conns[i].raw, 1, demand)
                                          /\ \A e \in {1, 2} : <<i, e>> \in PinEnds(r) =>
                                                 (HasShape(r, EndRec(r, <<i, e>>).s) /\ \E q \in PinsOf(r, EndRec(r, <<i, e>>).s, EndRec(r, <<i, e>>).c) : r.pins[q].p = RoutePt(r, <<i, e>>))
           THEN {"checkpoints-not-visited-in-order"} ELSE {})
